@@ -32,6 +32,9 @@ structure St where
   st : Array Nat := #[]                    -- 0 never, 1 managed, 2 unmanaged (raw / allocated while stopped), 3 dead
   rootOf : Array Bool := #[]
   kills : Array (List Nat) := #[]
+  killNull : Array Bool := #[]             -- the destructor of the id also calls del(NULL), after its kills
+  strict : Bool := false                   -- ledger of the property text in the stopped window (witness files only)
+  tainted : Bool := false                  -- a witness of a known finding ran: the model departs from the ledger on purpose
   every : Nat := 1
   since : Nat := 0
   nDump : Nat := 0
@@ -48,7 +51,8 @@ def St.idOfAddr (s : St) (p : Nat) : String :=
 def St.K (s : St) (p : Nat) : List Nat :=
   if p ≥ addr0 then
     match s.uId[(p - addr0) / 8]? with
-    | some id => (s.kills.getD id []).filterMap (fun k => (s.idU.getD k none).map addrOfU)
+    | some id => (s.kills.getD id []).filterMap (fun k => (s.idU.getD k none).map addrOfU) ++
+                 (if s.killNull.getD id false then [0] else [])
     | none => []
   else []
 
@@ -112,9 +116,13 @@ def finish (s : St) (name res : String) (t : List Nat) : IO St := do
   s := { s with since := if due then 0 else s.since + 1, nDump := s.nDump + (if due then 1 else 0),
                 maxN := max s.maxN s.reg.n }
   IO.println s!"O {name} {res} fin={finStr s t} | {stateStr s due}"
-  if due then
+  if due && !s.tainted then
     for b in selfCheck s do IO.println s!"R bad {name}: {b}"
   return s
+
+/-- the model does not answer (`none`): the C code does not continue normally (the known case: `dealloc(destruct(NULL))` from
+    GC_Rem_Ptr during a sweep); the harness prints the same line and both stop -/
+def abortLine (name : String) : IO Unit := IO.println s!"O {name} abort"
 
 def idealLine (lo hi : Nat) : String := Id.run do
   let mut out : List String := []
@@ -137,13 +145,16 @@ def registerId (s : St) (id u : Nat) : Option St :=
     else
       let k := id + 1
       some { s with idU := (growTo s.idU k none).setIfInBounds id (some u), uId := s.uId.insert u id, bucket := s.bucket.insert (u / 4) u,
-                    st := growTo s.st k 0, rootOf := growTo s.rootOf k false, kills := growTo s.kills k [] }
+                    st := growTo s.st k 0, rootOf := growTo s.rootOf k false, kills := growTo s.kills k [],
+                    killNull := growTo s.killNull k false }
 
 def main (args : List String) : IO Unit := do
   let lines ← Driver.inputLines args
   let mut s : St := {}
   let mut nops := 0
+  let mut halted := false
   for l in lines do
+    if halted then break
     if Driver.isSkippable l then continue
     nops := nops + 1
     let ws := Driver.words l
@@ -174,51 +185,94 @@ def main (args : List String) : IO Unit := do
             -- the harness keeps the threshold out of reach for exact ops (white-box: mitems >= nitems + 1)
             let r0 := if s.reg.running && s.reg.mitems < s.reg.nitems + 1 then { s.reg with mitems := s.reg.nitems + 1 } else s.reg
             match gcSet cfg s.K r0 p root [] with
-            | none => s ← finish s op "ub" []
+            | none => abortLine op; halted := true
             | some (r1, t) =>
-              s := { s with reg := r1, st := s.st.setIfInBounds id (if r0.running then 1 else 2),
-                            rootOf := s.rootOf.setIfInBounds id (r0.running && root) }
+              if !r0.running && s.strict then
+                s := { s with reg := r1, st := s.st.setIfInBounds id 1, rootOf := s.rootOf.setIfInBounds id root, tainted := true }
+              else
+                s := { s with reg := r1, st := s.st.setIfInBounds id (if r0.running then 1 else 2),
+                              rootOf := s.rootOf.setIfInBounds id (r0.running && root) }
               s ← finish s op "ok" t
+      else if op == "tnewx" && a.size ≥ 2 then
+        let id := a[0]!; let u := a[1]!
+        let keep := (a.toList.drop 2)
+        let ps := keep.filterMap s.addrOfId
+        if ps.length != keep.length || keep.length > 200 then IO.println "O bad-op" else
+        match registerId s id u with
+        | none => IO.println "O bad-op"
+        | some s1 =>
+          let stt := s1.st.getD id 0
+          if stt == 1 || stt == 2 then IO.println "O bad-op" else
+          s := s1
+          let p := addrOfU u
+          -- the harness puts the threshold within reach: mitems = nitems, so nitems + 1 > mitems
+          let r0 := if s.reg.running then { s.reg with mitems := s.reg.nitems } else s.reg
+          match gcSet cfg s.K r0 p false (ps ++ [p]) with
+          | none => abortLine op; halted := true
+          | some (r1, t) =>
+            if !r0.running && s.strict then
+              s := { s with reg := r1, st := s.st.setIfInBounds id 1, rootOf := s.rootOf.setIfInBounds id false, tainted := true }
+            else
+              s := { s with reg := r1, st := s.st.setIfInBounds id (if r0.running then 1 else 2),
+                            rootOf := s.rootOf.setIfInBounds id false }
+            s ← finish s op "ok" t
       else if (op == "del" || op == "delroot") && a.size == 1 then
         match s.addrOfId a[0]! with
         | none => IO.println "O bad-op"
         | some p =>
           match gcRem cfg s.K s.reg p with
-          | none => s ← finish s op "ub" []
-          | some (r1, t) => s := { s with reg := r1 }; s ← finish s op "ok" t
+          | none => abortLine op; halted := true
+          | some (r1, t) =>
+            if !s.reg.running && s.strict && s.st.getD a[0]! 0 == 1 then
+              s := { s with st := s.st.setIfInBounds a[0]! 3, tainted := true }     -- deleted, says the property text
+            s := { s with reg := r1 }; s ← finish s op "ok" t
+      else if op == "delnull" && a.size == 0 then
+        match gcRem cfg s.K s.reg 0 with
+        | none => abortLine op; halted := true
+        | some (r1, t) => s := { s with reg := r1 }; s ← finish s op "ok" t
+      else if op == "dealloc" && a.size == 1 then
+        let id := a[0]!
+        let stt := s.st.getD id 0
+        if stt != 1 && stt != 2 then IO.println "O bad-op" else
+        -- dealloc / dealloc_root: the block is released, the collector is not told
+        match s.addrOfId id with
+        | none => IO.println "O bad-op"
+        | some p =>
+          if stt == 1 then s := { s with tainted := true }
+          s ← finish s op "ok" [p]
       else if op == "delraw" && a.size == 1 then
         let id := a[0]!
         if s.st.getD id 0 != 2 then IO.println "O bad-op" else
         -- del_raw: destruct + dealloc without the collector; the destructor's deletions go through GC_Rem
         match exec cfg s.K (nestFuel s.reg + 1) s.reg (.fin (addrOfU ((s.idU.getD id none).getD 0))) with
-        | none => s ← finish s op "ub" []
+        | none => abortLine op; halted := true
         | some (r1, t) => s := { s with reg := r1 }; s ← finish s op "ok" t
       else if op == "mem" && a.size == 1 then
         match s.addrOfId a[0]! with
         | none => IO.println "O bad-op"
         | some p =>
           match memPtr cfg s.reg p with
-          | none => s ← finish s op "ub" []
+          | none => abortLine op; halted := true
           | some b => s ← finish s op (if b then "1" else "0") []
       else if op == "sweep" || op == "collect" then
         let ps := a.toList.filterMap s.addrOfId
         if ps.length != a.size || (op == "collect" && a.size > 40) then IO.println "O bad-op" else
         let r0 := if op == "collect" then markRoots s.reg else s.reg
         match markAll cfg r0 ps with
-        | none => s ← finish s op "ub" []
+        | none => abortLine op; halted := true
         | some r1 =>
           match gcSweep cfg s.K r1 with
-          | none => s ← finish s op "ub" []
+          | none => abortLine op; halted := true
           | some (r2, t) => s := { s with reg := r2 }; s ← finish s op "ok" t
       else if op == "sweepmod" && a.size == 2 && a[0]! > 0 then
         -- mark every managed id with id % m != r
         let ps := (List.range s.st.size).filterMap (fun id =>
           if s.st.getD id 0 == 1 && id % a[0]! != a[1]! then s.addrOfId id else none)
         match markAll cfg s.reg ps with
-        | none => s ← finish s op "ub" []
+        | none => abortLine op; halted := true
         | some r1 =>
           match gcSweep cfg s.K r1 with
-          | none => s ← finish s op "ub" []
+          | none => abortLine op; halted := true
           | some (r2, t) => s := { s with reg := r2 }; s ← finish s op "ok" t
       else if op == "stop" && a.size == 0 then
         s := { s with reg := gcStop s.reg }; s ← finish s op "ok" []
@@ -230,8 +284,15 @@ def main (args : List String) : IO Unit := do
         IO.println s!"O kill {a[0]!} {a[1]!}"
       else if op == "unkill" && a.size == 1 then
         if (s.idU.getD a[0]! none).isNone then IO.println "O bad-op" else
-        s := { s with kills := s.kills.setIfInBounds a[0]! [] }
+        s := { s with kills := s.kills.setIfInBounds a[0]! [], killNull := s.killNull.setIfInBounds a[0]! false }
         IO.println s!"O unkill {a[0]!}"
+      else if op == "killnull" && a.size == 1 then
+        if (s.idU.getD a[0]! none).isNone then IO.println "O bad-op" else
+        s := { s with killNull := s.killNull.setIfInBounds a[0]! true }
+        IO.println s!"O killnull {a[0]!}"
+      else if op == "strict" && a.size == 0 then
+        s := { s with strict := true }
+        IO.println "O strict"
       else IO.println "O bad-op"
     | none, _ => IO.println "O bad-op"
   IO.println s!"S ops={nops} dumps={s.nDump} maxslots={s.maxN}"
